@@ -114,7 +114,9 @@ union U @svc(s: "A") = Cat | Dog
 `
 
 // a boundary type that belongs to abstract types of two services: Gizmo implements Tool in A and Priced in B and is a
-// member of B's union Found; every abstract type has a non-boundary member of its own service beside it
+// member of B's union Found; every abstract type has a non-boundary member of its own service beside it.  Both members of
+// Tool have a maker, whose fields two further services own (the same response key may then stand for different fields
+// under the two members)
 var fixtureShared = `
 type Query {
   tools: [Tool!]! @owner(s: "A")
@@ -132,10 +134,12 @@ type Gizmo implements Tool & Priced @bnd(s: "A B") {
   price: Int @owner(s: "B")
   stock: Int! @owner(s: "B")
   twin: Gizmo @owner(s: "B")
+  maker: Maker @owner(s: "A")
 }
-type Hammer implements Tool @svc(s: "A") { label: String heft: Int! }
+type Hammer implements Tool @svc(s: "A") { label: String heft: Int! maker: Maker }
 type Ticket implements Priced @svc(s: "B") { price: Int seat: String! }
 union Found @svc(s: "B") = Gizmo | Ticket
+type Maker @bnd(s: "B C") { id: ID! nick: String @owner(s: "B") age: String @owner(s: "C") }
 `
 
 type fixture struct {
